@@ -92,7 +92,7 @@ def meadowsLoad (j : Json) : R Json := do
     let comps : Except String (Comps Rat) ←
       if info.filetype == sMat then do
         let vars ← fld j "vars" >>= asList asVar
-        pure (compsMat info (loadmatVars vars))
+        pure (Src.compsMat info (loadmatVars vars))
       else if info.filetype == sJsonExt then do
         let tasks ← asOpt (asList asTask) (fldD j "tasks" Json.null)
         pure (Src.compsJson info tasks)
